@@ -19,8 +19,10 @@ import (
 	"reflect"
 	"strconv"
 	"strings"
+	"time"
 
 	goyaml "github.com/goccy/go-yaml"
+	yamlv3 "gopkg.in/yaml.v3"
 )
 
 type jsonDec struct {
@@ -475,9 +477,25 @@ func (d *jsonDec) fromYAMLGeneric(g interface{}) value {
 			mapSet(m, k, d.fromYAMLGeneric(e))
 		}
 		return iface{t: d.i.m.mapOfAny(), v: m}
+	case map[interface{}]interface{}:
+		// (what some YAML libraries produce for mappings with a key that is not a string)
+		anyT := types.NewInterfaceType(nil, nil).Complete()
+		m := makeMap(anyT, int64(len(x)))
+		for k, e := range x {
+			mapSet(m, d.fromYAMLGeneric(k), d.fromYAMLGeneric(e))
+		}
+		return iface{t: types.NewMap(anyT, anyT), v: m}
+	case time.Time:
+		// (an unquoted timestamp-looking scalar in some YAML libraries): carried opaquely
+		if tp := d.i.prog.ImportedPackage("time"); tp != nil {
+			return iface{t: tp.Type("Time").Type(), v: opaqueGo{x}}
+		}
 	}
-	panic(unsupported(fmt.Sprintf("YAML value of type %T (non-string map keys and custom tags are outside the model)", g)))
+	panic(unsupported(fmt.Sprintf("YAML value of type %T (custom tags are outside the model)", g)))
 }
+
+// opaqueGo carries a Go value of a library type through interpreted code that only passes it on.
+type opaqueGo struct{ v interface{} }
 
 // genericToGo converts an interpreter value that is a generic JSON-like tree back to Go.
 func genericToGo(v value) interface{} {
@@ -495,6 +513,19 @@ func genericToGo(v value) interface{} {
 		out := make([]interface{}, len(x))
 		for k, e := range x {
 			out[k] = genericToGo(e)
+		}
+		return out
+	case opaqueGo:
+		return x.v
+	case *hashmap:
+		// a map keyed by interface values: handed to the real json.Marshal as such (it refuses it)
+		out := map[interface{}]interface{}{}
+		if x != nil {
+			for _, head := range x.entries() {
+				for e := head; e != nil; e = e.next {
+					out[genericToGo(e.key)] = genericToGo(e.value)
+				}
+			}
 		}
 		return out
 	case map[value]value:
@@ -536,7 +567,19 @@ func init() {
 		var cell value = structure{f}
 		return &cell
 	}
+	natives["gopkg.in/yaml.v3.NewDecoder"] = natives["github.com/goccy/go-yaml.NewDecoder"]
+	natives["(*gopkg.in/yaml.v3.Decoder).Decode"] = func(fr *frame, a []value) value {
+		return yamlDecodeWith(fr, a, func(data []byte, g *map[string]interface{}) error { return yamlv3.Unmarshal(data, g) })
+	}
 	natives["(*github.com/goccy/go-yaml.Decoder).Decode"] = func(fr *frame, a []value) value {
+		return yamlDecodeWith(fr, a, func(data []byte, g *map[string]interface{}) error { return goyaml.Unmarshal(data, g) })
+	}
+}
+
+// yamlDecodeWith: Decode of a virtual file into *map[string]interface{} by the real library the
+// code names (run on the concrete bytes; the result is converted to interpreter values).
+func yamlDecodeWith(fr *frame, a []value, unmarshal func([]byte, *map[string]interface{}) error) value {
+	{
 		p, _ := a[0].(*value)
 		f, _ := (*p).(structure)[0].(*vfsFile)
 		if f == nil || f.data == nil {
@@ -554,7 +597,7 @@ func init() {
 			panic(unsupported("yaml Decode into " + typeString(pt.Elem()) + " (only map[string]interface{} is modelled)"))
 		}
 		var g map[string]interface{}
-		if err := goyaml.Unmarshal(data, &g); err != nil {
+		if err := unmarshal(data, &g); err != nil {
 			return fr.i.mkError(err.Error())
 		}
 		d := &jsonDec{i: fr.i, fr: fr}
